@@ -70,6 +70,8 @@ type pagerCase struct {
 	PageURL string            `json:"page_url"`
 	HTML    string            `json:"html"`
 	Desc    map[string]string `json:"desc"`
+	// Before: pages distilled earlier in the same process (a series); replayed first
+	Before []pagerCase `json:"before,omitempty"`
 }
 
 var pagerSeps = []string{" ", " | ", "&nbsp;", " · ", "</li><li>", "</span> <span>", " - "}
